@@ -211,6 +211,9 @@ def directed(run, prop, tier, seed):
                 (f"*=0x008000\n.macro rep(n, code) {{\n.for i := 0, n {{\n{{{{code}}}}\n}}\n}}\nrep({c}, {{\n{{\nl:\n.dw l\n}}\n.db i\n}})\n", b"".join((0x8000 + 3 * i).to_bytes(2, "little") + bytes([i]) for i in range(c))),
                 (f"*=0x008000\n.macro p(v) {{\n.db v\n}}\n.macro twice(code) {{\n{{{{code}}}}\n.db 0xEE\n{{{{code}}}}\n}}\ntwice({{\np({a})\n.for j := 0, 2 {{\np(j)\n}}\n}})\n.db {b}\n", bytes([a, 0, 1, 0xEE, a, 0, 1, b])),
                 (f"*=0x008000\n.macro w(code) {{\n{{{{code}}}}\n}}\n.macro outer(v) {{\nw({{\n.if v {{\n.db v\n}} else {{\n.db {a}\n}}\n}})\n}}\nouter(0)\nouter(1)\nouter({c})\n", bytes([a, 1, c])),
+                # a spliced block is expanded in place, in the application's block: its definitions are visible to the body around the splice
+                (f"*=0x008000\n.macro wrap(code) {{\n{{{{code}}}}\n.dw inner\n}}\nwrap({{\ninner:\n.db {a}\n}})\n", bytes([a, 0x00, 0x80])),
+                (f"*=0x008000\ninner:\n.db 0xEE\n.macro wrap(code) {{\n.dw inner\n{{{{code}}}}\n.db v\n}}\nwrap({{\n.db {a}\ninner:\nv = {b}\n}})\n.dw inner\n", bytes([0xEE, 0x04, 0x80, a, b, 0x00, 0x80])),
                 ("*=0x008000\nnot_defined_macro(1)\n", None),
                 # an undefined macro fails wherever the application is reached
                 (f"*=0x008000\n.db {a}\n.if 1 {{\n.db 1\nnot_defined_macro()\n}} else {{\n.db 2\n}}\n", None),
